@@ -77,6 +77,7 @@ func runC04(r *Run) {
 	c04CanaryCandidates(r, c)
 	c15Cap(r, "C04.R5", "C04.R7")
 	c04Labels(r, c)
+	c04LabelLoopExits(r)
 }
 
 // ---------------------------------------------------------------------------------------------
